@@ -2,7 +2,7 @@ from common import KERNEL, CORR
 
 PROP = dict(
     level="proof",
-    generators=["C01"],
+    generators=["C01", "C11", "C08"],   # the FLV / WebSocket framing and chunk ops too: every consumer's bytes go through those encoders
     harness_timeout=900,
     trusted_base=[
         KERNEL, CORR,
